@@ -4,7 +4,7 @@
 (* and (b) to enumerate transitions that are replayed into the C library:  *)
 (* the state constraint `Emit` prints every explored transition as JSON.   *)
 (* What is enumerated is selected by the constants:                        *)
-(*   Scn     "get" | "set" | "init" | "bad" | "pairs"                      *)
+(*   Scn     "get" | "set" | "init" | "bad" | "pairs" | "hdr"              *)
 (*   GViews  the views to cover                                            *)
 (*   NRand   number of pseudo-random background images                     *)
 (*   Walk    TRUE: add walking-one/walking-zero images (every header bit)  *)
@@ -86,6 +86,7 @@ OpsTable ==      \* constant-level: evaluated once per view
        [] Scn = "init"  -> InitOps(v)
        [] Scn = "bad"   -> BadOps(v)
        [] Scn = "pairs" -> FewSetOps(v) \cup InitOps(v)
+       [] Scn = "hdr"   -> GetOps(v) \cup FewSetOps(v) \cup InitOps(v) \cup { Op("payload", v, "", "current", Zero64, "") }
        [] OTHER -> {}]
 OpsAt(v, k) == OpsTable[v]
 
